@@ -41,5 +41,9 @@ class AndersonAcceleration:
 
         # extrapolate
         C = inv_UTU_ones / np.sum(inv_UTU_ones)
-        # floating point errors may cause w and Xw to disagree
+        # floating point errors may cause w and Xw to disagree: their rounding errors are
+        # multiplied by sum(|C|). When the stored iterates are (nearly) identical the system
+        # is numerically singular, C is huge and the extrapolated pair is noise: skip it
+        if not np.all(np.isfinite(C)) or np.sum(np.abs(C)) > 1e8:
+            return w, Xw, False
         return self.arr_w_[:, 1:] @ C, self.arr_Xw_[:, 1:] @ C, True
